@@ -128,6 +128,7 @@ def h_tridonic_loss(ctx, point, two_callers, inflight=False):
                 out["t3"] = _result(t3)
             out["t1"], out["t2"] = _result(t1), _result(t2) if t2 else None
             out["connected"] = d.connected.is_set()
+            out["identity"] = (d.firmware_version, d.serial)
             out["outstanding"] = len(d._outstanding)
             out["sem"] = d._command_semaphore._value
             out["locked"] = d.transaction_lock.locked()
@@ -196,6 +197,9 @@ def h_tridonic_loss(ctx, point, two_callers, inflight=False):
             ctx.prove(out["handshakes"] >= 2 * (1 + n_loss) - (1 if point == "handshake" else 0) - 1,
                       "handshake not repeated after reconnection", key=tag + "/handshake")
             ctx.prove(out["watch_alive"], "bus watcher not running after reconnection", key=tag + "/watcher")
+            ctx.prove(out["identity"] == ("1.2", "01020304"), "after reconnection the driver reports firmware/serial "
+                      "%r: the version/serial handshake was not repeated properly" % (out["identity"],),
+                      key=tag + "/identity")
         return "%s limit=%s down=%d exc=%s back=%s t1=%s" % (point, limit, down, exceptions, comes_back, out["t1"][0])
 
 
@@ -328,8 +332,9 @@ def h_hasseb_loss(ctx, point):
         return "%s exc=%s -> %s" % (point, exceptions, kind_)
 
 
-def h_serial_silence(ctx, which, when):
-    cmd = gg.QueryActualLevel(A.GearShort(1))
+def h_serial_silence(ctx, which, when, dt=False):
+    import dali.gear.led as led
+    cmd = led.QueryFeatures(A.GearShort(1)) if dt else gg.QueryActualLevel(A.GearShort(1))
     out = {}
 
     async def main(loop):
@@ -342,6 +347,7 @@ def h_serial_silence(ctx, which, when):
                 loop.call_later(0.02, p.data_received, rigs.luba_event_tx(1, data[6:8]))
             else:
                 loop.call_later(0.02, p.data_received, rigs.sci_frame(0x10, 0, 0, 0))
+            out["writes"] = out.get("writes", 0) + 1
         t.on_write = gateway
         t0 = loop.time()
         tk = asyncio.ensure_future(d.send(cmd))
@@ -355,7 +361,7 @@ def h_serial_silence(ctx, which, when):
         out["locked"] = d.transaction_lock.locked()
         out["txlock"] = p._tx_lock.locked()
     st, r = call(vloop.run, main)
-    tag = "%s/silent-%s" % (which, when)
+    tag = "%s/silent-%s%s" % (which, when, "-dt" if dt else "")
     if st == "exc":
         ctx.fail("harness run raised %r" % (r,), key=tag + "/run-raised:" + type(r).__name__)
         return "raised"
@@ -370,8 +376,8 @@ def h_serial_silence(ctx, which, when):
     else:
         ok = kind_ == "ok" and type(payload) is type(cmd).response and payload.raw_value is None
         ctx.prove(ok, "unanswered query gave %s %r" % (kind_, payload), key=tag + "/no-answer")
-        ctx.prove(out["elapsed"] <= 0.02 + drv.timeout_rx + 0.02, "'no answer' only after %.3f s" % out["elapsed"],
-                  key=tag + "/late")
+        ctx.prove(out["elapsed"] <= (2 if dt else 1) * 0.02 + drv.timeout_rx + 0.02,
+                  "'no answer' only after %.3f s" % out["elapsed"], key=tag + "/late")
     ctx.prove(out["t2"][0] != "pending", "the queued caller never got its turn", key=tag + "/queued-hang")
     ctx.prove(not out["locked"] and not out["txlock"], "a lock was left held", key=tag + "/lock")
     return "%s:%s" % (when, kind_)
@@ -391,4 +397,6 @@ def cases(tier):
     for which in ("luba", "sci"):
         for when in ("confirm", "answer"):
             cs.append(Case("%s-silent-%s" % (which, when), h_serial_silence, {"which": which, "when": when}))
+            cs.append(Case("%s-silent-%s-dt" % (which, when), h_serial_silence,
+                           {"which": which, "when": when, "dt": True}))
     return cs
